@@ -440,6 +440,44 @@ def _argtype_point(cfg):
                        sample=dict(cfg=cfg, values=list(INT_VALUES)))
 
 
+def _transport_point(cfg):
+    """a scale object after copy.copy / copy.deepcopy / pickle round trip (how it reaches a worker
+    process inside a bank) must map like a freshly built one with the same parameters"""
+    import copy
+    import pickle
+
+    viol = []
+    evals = 0
+    fresh = build(cfg)
+    for route, fn in (("copy", copy.copy), ("deepcopy", copy.deepcopy),
+                      ("pickle", lambda o: pickle.loads(pickle.dumps(o)))):
+        r = computers.call(fn, build(cfg))
+        if r[0] != "ok":
+            viol.append(core.violation(dict(what="transport", scale=cfg["name"], route=route, exc=r[1]),
+                                       "%s of %r raised %s: %s" % (route, cfg, r[1], r[2]),
+                                       dict(kind="transport", cfg=cfg)))
+            continue
+        for direction, vals in (("hertz_to_scale", (20.0, 160.0, 440.0, 1000.0, 5000.0)),
+                                ("scale_to_hertz", (0.5, 3.0, 10.0, 20.0))):
+            for v in vals:
+                if cfg["name"] == "octave" and direction == "hertz_to_scale" and v < cfg["low_hz"]:
+                    continue
+                a = computers.call(getattr(fresh, direction), v)
+                b = computers.call(getattr(r[1], direction), v)
+                evals += 1
+                if a[0] != "ok":
+                    continue
+                if b[0] != "ok" or not abs(float(b[1]) - float(a[1])) <= 1e-12 * max(1.0, abs(float(a[1]))):
+                    viol.append(core.violation(
+                        dict(what="transport", scale=cfg["name"], route=route, call=direction),
+                        "%r after %s: %s(%r) = %s, a freshly built object gives %r" % (
+                            cfg, route, direction, v, b[1] if b[0] == "ok" else b[1:], a[1]),
+                        dict(kind="transport", cfg=cfg)))
+                    break
+    return core.result(viol[:4], evals=evals, nontrivial_count=evals, obs=[cfg["name"], len(viol) == 0],
+                       sample=dict(cfg=cfg))
+
+
 def subchecks(tier, seed):
     step = 0.25 if tier == "quick" else 0.0625
     chunk = 20000 if tier == "quick" else 40000
@@ -477,6 +515,11 @@ def subchecks(tier, seed):
             "whole-number arguments passed as Python int / numpy int32 / int64 / numpy float64 scalar, both "
             "directions, every scale configuration: same result as with a Python float (1e-12)",
             replay=lambda case: _argtype_point(case["cfg"])),
+        core.SubCheck(
+            "transport", cfgs, _transport_point,
+            "every scale configuration after copy.copy / deepcopy / pickle round trip: both directions at 9 "
+            "values equal a freshly built object (1e-12)",
+            replay=lambda case: _transport_point(case["cfg"])),
         core.SubCheck(
             "histories", _history_points(tier), _history_point,
             "objects living in one process: two instances of a class with different parameters queried at "
